@@ -9,6 +9,7 @@ CONSTANTS
   BinOps = {}
   BinMods = {}
   Offsets <- OffFew
+  BadOffsets = {}
   AtMods <- AtFew
   Exts = {"anchored", "smoothed"}
   Ranges = {300000}
